@@ -1533,15 +1533,12 @@ func (t *Terminal) UpdateList(merger *Merger) {
 			// Trimmed by --tail: filter selection by index
 			filtered := make(map[int32]selectedItem)
 			minIndex := merger.minIndex
-			maxIndex := minIndex + int32(merger.Length())
 			for k, v := range t.selected {
-				var included bool
-				if maxIndex > minIndex {
-					included = k >= minIndex && k < maxIndex
-				} else { // int32 overflow [==>   <==]
-					included = k >= minIndex || k < maxIndex
-				}
-				if included {
+				// Only the items below the window were trimmed. We cannot use the
+				// length of the merger for the upper bound as it is the number of
+				// the matches, not of the items. The difference wraps around so
+				// it is still correct after int32 overflow [==>   <==]
+				if k-minIndex >= 0 {
 					filtered[k] = v
 				}
 			}
